@@ -88,7 +88,7 @@ class LinChecker {
     switch (o.kind) {
       case OP_EXPECT: { const ShapeDesc& d = shape_table[o.shape]; return static_cast<size_t>(o.nseq) + 1 + (d.bf != BF_DEFAULT ? 1 : 0); }
       case OP_DROP_MOCK_REF: return o.last_ref ? 2 * NFN : 0;
-      case OP_Q_SAT: return 2;
+      case OP_Q_SAT: return o.mon >= 0 ? 0 : 2;
       case OP_REQ_DESTRUCTION: return 2 + static_cast<size_t>(o.nseq);
       case OP_NEW_WATCHED: case OP_NOP: return 0;
       default: return 1;
@@ -194,6 +194,12 @@ class LinChecker {
         return 1;
       }
       case OP_Q_SAT: {
+        if (o.mon >= 0) {   // a destruction requirement: satisfied and saturated exactly when its object has died
+          bool died = M.mons[static_cast<size_t>(o.mon)].died;
+          bool got = so.kind == SK_QSAT1 ? o.obs.flag : o.obs.flag2;
+          if (got != died) { why = std::string(so.kind == SK_QSAT1 ? "is_satisfied()" : "is_saturated()") + " of requirement#" + std::to_string(o.mon) + " = " + std::to_string(got) + " but its object " + (died ? "has died" : "is alive"); return 0; }
+          return 1;
+        }
         const MExp& e = M.exps[static_cast<size_t>(o.exp)];
         if (so.kind == SK_QSAT1) { if (o.obs.flag != e.sat()) { why = "is_satisfied() of exp#" + std::to_string(o.exp) + " = " + std::to_string(o.obs.flag) + ", model " + std::to_string(e.sat()); return 0; } return 1; }
         if (o.obs.flag2 != e.full()) { why = "is_saturated() of exp#" + std::to_string(o.exp) + " = " + std::to_string(o.obs.flag2) + ", model " + std::to_string(e.full()); return 0; }
